@@ -12,9 +12,9 @@ CHECKS = {
     "C01": dict(
         engine="typing", design_ref="DESIGN.md §6 C01",
         technique="Lean 4 theorem by mutual structural induction over expression trees of any depth (Typing.taint_preserved) instantiated on a verdict table REGENERATED from the C++ compiler on every run (translator gen/typing_table.py; table obligations by decide +kernel) + compositional spot check compiler vs model typeOf",
-        text=("Proof: C01_taint_preserved (for every expression tree over the wrapper API -- 69 unary/conversion/member/cast rules, 21 binary operators, leaves of 7 wrapper kinds x 14 type kinds, ANY depth -- "
+        text=("Proof: C01_taint_preserved (for every expression tree over the wrapper API -- 69 unary/conversion/member/cast rules, 21 binary operators with wrapped, plain, null-constant and opaque operands on either side, leaves of 7 wrapper kinds x 14 type kinds, ANY depth -- "
               "if it compiles and still carries sandbox data its type is not plain, unless the step is a named unwrapper, a null test of a tainted pointer or is_unregistered), C01_hint (comparisons with "
-              "sandbox-resident data or hints yield only hints), C01_hint_not_verifiable, C01_opaque_inert, C01_no_raw_access. The single-step table (12k translation units: accept/reject and decltype of the result) "
+              "sandbox-resident data or hints yield only hints), C01_hint_not_verifiable, C01_opaque_inert, C01_no_raw_access. The single-step table (14k translation units: accept/reject and decltype of the result) "
               "is regenerated from g++ on the current headers each run and the table obligations table_safe / table_ops_nonvoid are re-proved by the kernel; a broken obligation is located as a concrete translation unit. "
               "Compositionality is spot-checked on random depth-2..4 trees judged by the compiler against the model's typeOf."),
         note=NOTE + "Trusted: g++ 12 front end as the judge; the enumeration of forms in the translator; value categories are abstracted (rows use lvalue operands). Forms outside the enumerated rules are not covered."),
